@@ -75,7 +75,7 @@ func init() {
 		cr.absorb(jobs, res)
 		// airgapped half: a machine on an empty database, given the reinit operation built from the operation log, ends
 		// with the same keyring and answers with the round's public polynomial
-		runCeremony(cr, []Job{ceremonyJob("c20air", 2, 2, map[string]string{"reinit": "1"}, "reinit_dkg on a fresh database of machine 0")}, []map[string]int{{}})
+		runCeremony(cr, []Job{ceremonyJob("c20air", 2, 2, map[string]string{"reinit": "1", "noleak": "1"}, "reinit_dkg on a fresh database of machine 0")}, []map[string]int{{}})
 		cr.samples = append(cr.samples, map[string]interface{}{"hash_fields_checked": c20Fields(2, 2)})
 		cr.explanation = "Hash: CalcStartReInitDKGMessageHash executed from SSA on two reinit files that differ in exactly one field (every field in turn), byte strings as unbounded SMT sequences, SHA-1 uninterpreted and assumed collision-free; determinism by re-hashing. Adaptation: GetAdaptedReDKG/createMessage on symbolic 0.1.4-style logs against a reference walk. Replay: a node that receives the reinit message built from a log (opening proposal, both confirmations, both commitments; n=2; symbolic timestamps and commitment bytes; message ids all empty, as a Kafka board and the airgapped machine produce them, or pairwise distinct) ends in the same public round state as a node that followed the log live, and the reinit operation carries exactly the operations the live node produced. Airgapped half (contract level, VF_Air_Ceremony reinit=1): after a full ceremony the operation log of machine 0 is handed as a reinit_dkg operation to a machine with the same mnemonic on an empty database; it replays exactly the request operations, ends with the same keyring (share and polynomial) and answers with that polynomial; run natively with real kyber on every run. Bit-identity of kyber's outputs is its determinism contract."
 		cr.bounds["adapt_log"] = fmt.Sprintf("1..%d messages, three participants (any sender, any other recipient), each message a deal or a commit confirmation with symbolic fields", maxm)
